@@ -486,6 +486,15 @@ func (c *Conn) loadSession(hello *clientHelloMsg) (
 			return nil, nil, nil, nil
 		}
 
+		// [UTLS SECTION START]
+		// RFC 7627, Section 5.3: a session that used extended_master_secret must not be
+		// offered by a ClientHello without the extension (the server has to abort).
+		// crypto/tls always sends the extension, a uTLS ClientHelloSpec may not.
+		if session.extMasterSecret && !hello.extendedMasterSecret {
+			return nil, nil, nil, nil
+		}
+		// [UTLS SECTION END]
+
 		hello.sessionTicket = session.ticket
 		return
 	}
